@@ -13,6 +13,7 @@ package main
 import (
 	"bytes"
 	"fmt"
+	"io"
 	"regexp"
 	"strconv"
 	"strings"
@@ -286,7 +287,7 @@ func runCase(line string) (impl, oracle string) {
 				data := unhex(ch)
 				var n int
 				var err error
-				if guarded(func() { n, err = w.Write(data) }) {
+				if guarded(func() { n, err = writeScrambling(w, data) }) {
 					panicked = true
 					break
 				}
@@ -346,7 +347,7 @@ func runCase(line string) (impl, oracle string) {
 			pending := 0
 			for _, ch := range strings.Split(parts[2], ";") {
 				data := unhex(ch)
-				n, err := lp.Write(data)
+				n, err := writeScrambling(lp, data)
 				limit := mx
 				if mx == 0 {
 					limit = 64 * 1024
@@ -616,4 +617,17 @@ func main() {
 			c.Count("random")
 		}
 	})
+}
+
+// writeScrambling hands the writer a private copy of data and overwrites that
+// copy as soon as Write returns: an io.Writer must not retain p, and callers
+// such as io.Copy reuse their buffer, so a writer that keeps a reference to
+// the caller's slice (instead of copying what it buffers) is exposed here.
+func writeScrambling(w io.Writer, data []byte) (int, error) {
+	buf := append([]byte(nil), data...)
+	n, err := w.Write(buf)
+	for i := range buf {
+		buf[i] ^= 0xA5
+	}
+	return n, err
 }
